@@ -71,6 +71,10 @@ class ErrorRender:
 				node.source_map['end'][0] - 1,
 				node.source_map['end'][1] - 1,
 			)
+			# XXX 位置情報を持たないノード(Empty/プロキシー等)は引用する行が存在しないため省略
+			if source_map[0] < 0:
+				return []
+
 			return self.Quotation(filepath, source_map).build()
 		except Exception:
 			# XXX 位置情報が不完全なノード(ファイル末尾で閉じるブロックは終了位置を持たない場合がある)は引用を省略。エラー出力自体は失敗させない
